@@ -243,13 +243,16 @@ def eval_C19(case):
         els += [d["origin"] for _, d in G.nodes.data() if "origin" in d] + [d["destination"] for _, d in G.nodes.data() if "destination" in d]
         return els
 
-    def deps(el):
+    def deps(el, symbolic=True):
+        """elements whose variables occur in el's next states (symbolic) / are read when stepping el"""
         g = graph_maps(b)
         if S[el]["cat"] == "link":
             nu, nd = g["up"][el], g["down"][el]
             d = [el] + g["ins"][nu] + ([g["orig"][nu]] if nu in g["orig"] else [])
             d += [g["dest"][nd]] if nd in g["dest"] else g["outs"][nd]
             return [x for x in d if _has_vars(S[x])]
+        if symbolic and S[el]["kind"] == "simple" and S[el]["type"] == "unlimited":
+            return [el]  # its flow is the commanded one: nothing of the link enters its queue update
         node = next(n for n, o in g["orig"].items() if o is el)
         return [el] + g["outs"][node]
 
@@ -303,7 +306,7 @@ def eval_C19(case):
             el = b.el(op[1])
             if el not in in_net() or not _has_states(S[el]) or not net.is_valid(raises=False)[0]:
                 continue
-            if any(gen.get(d) is None for d in deps(el)):
+            if any(gen.get(d) is None for d in deps(el, symbolic=False)):
                 continue
             el.step(net=net, engine=eng, **P[op[2]])
             mark_step(el, op[2])
@@ -314,6 +317,9 @@ def eval_C19(case):
             not_ready += [b.key[el] for el in els if _has_states(S[el]) and el not in stepped]
             stale = [b.key[el] for el in els if el in stepped and any(gen.get(d) != g0 for d, g0 in stepped[el][0].items())]
             label = f"op {i} compile(compact={op[1]}, more_out={bool(op[2])})"
+            if not not_ready and not (len(net.graph) and net.is_valid(raises=False)[0]):
+                evals -= 1  # a ready but invalid network: outside the property (garbage in)
+                continue
             try:
                 kw = {k2: v for k2, v in P[0].items() if not k2.startswith("positive")}
                 F = eng.to_function(net, compact=op[1], more_out=bool(op[2]), **kw)
